@@ -84,6 +84,7 @@ package price
 // 'decimal' against shopspring/decimal): multiplication is odd in its first argument and x*1 = x.
 //@ axiom dmul_neg: forall x real, y real :: {dmul(0.0 - x, y)} dmul(0.0 - x, y) == 0.0 - dmul(x, y)
 //@ axiom dmul_one: forall x real :: {dmul(x, 1.0)} dmul(x, 1.0) == x
+//@ axiom dmul_negone: forall x real :: {dmul(x, 0.0 - 1.0)} dmul(x, 0.0 - 1.0) == 0.0 - x
 //@ axiom dmul_zero: forall y real :: {dmul(0.0, y)} dmul(0.0, y) == 0.0
 //
 // Valuation is odd in the quantity: the two halves of a posting pair stay exact negatives (C01).
